@@ -17,7 +17,8 @@ class MessageHead(packet.Packet):
         ''' remove padding from payload list after disect() completes '''
         formats.remove_padding(self)
 
-        if not self.payload:
+        if not self.payload and self.guess_payload_class(b'').fields_desc:
+            # Messages without any fields are complete with the header alone
             raise formats.VerifyError('Message without payload')
         if isinstance(self.payload, packet.Raw):
             raise formats.VerifyError('Message with improper payload')
